@@ -129,6 +129,14 @@ func VH_C08_poolBound() {
 			vMonC(2, func() { inflight-- })
 		})
 	}
+	if vNondet[bool]("closeWithoutWait") {
+		// shutting the pool down while tasks are queued or running: whichever of them still run, the
+		// bound holds until the last one has finished
+		vCover("pool-closed-while-busy")
+		p.Close()
+		vQuiesce()
+		return
+	}
 	p.Wait()
 	vCover("pool-bound")
 }
